@@ -29,7 +29,7 @@ def main():
     br = {}
     # long units first
     units.sort(key=lambda u: (0 if "_denovo" in u[1] or "interval_step" in u[1] or "compound_step" in u[1] else 1, u[1]))
-    with mp.Pool(16) as pool:
+    with mp.Pool(16, maxtasksperchild=1) as pool:
         for u, r in pool.imap_unordered(work, units, chunksize=1):
             n = len(r["obligations"])
             k = sum(1 for o in r["obligations"] if o["status"] == "unsat")
@@ -39,6 +39,9 @@ def main():
                 cur = br.setdefault((u[1], k_), [False, False, r.get("dead_ok", [])])
                 cur[0] = cur[0] or v_[0]
                 cur[1] = cur[1] or v_[1]
+            for o in r["obligations"]:
+                if o["time"] > float(os.environ.get("PYVC_SLOW_S", "1e9")):
+                    print("   SLOW %.1fs %s" % (o["time"], o["id"][:150]))
             vac = [c for c in r.get("canaries", []) if c["status"] == "vacuous"]
             if r["error"] or k != n or vac:
                 bad += 1
